@@ -213,6 +213,50 @@ let () =
       show_res hex_of_bytes (adjust_operand (bool_of_arg isrows) (z_of_string num) (z_of_string off) sp (bool_of_arg same) (bytes_of_hex cell))
     | _ -> "bad-args")
 
+(* ---- C08 evaluator machine ---- *)
+let binop_of_sym (s : string) : binop =
+  match s with
+  | "^" -> OPow | "*" -> OMul | "/" -> ODiv | "+" -> OAdd | "-" -> OSub | "&" -> OCat
+  | "=" -> OEq | "<>" -> ONe | "<" -> OLt | "<=" -> OLe | ">" -> OGt | ">=" -> OGe
+  | _ -> failwith ("bad op " ^ s)
+
+let parse_c08_tok (t : string) : val0 tok =
+  if t = "pre" then TPre else if t = "(" then TL else if t = ")" then TR else if t = "%" then TPct
+  else match t.[0] with
+    | 'n' -> TLit (VNum (float_of_hexbits (String.sub t 1 16), false))
+    | 'b' -> TLit (VNum (Float64.of_float (if t = "b1" then 1.0 else 0.0), true))
+    | 's' -> TLit (VStr (bytes_of_hex ("x" ^ String.sub t 1 (String.length t - 1))))
+    | 'o' -> TOp (binop_of_sym (String.sub t 1 (String.length t - 1)))
+    | _ -> failwith ("bad c08 token " ^ t)
+
+let show_val (v : val0) : string =
+  match v with
+  | VNum (x, b) -> "num " ^ hexbits_of_float x ^ " " ^ str_bool b
+  | VStr s -> "str " ^ hex_of_bytes s
+  | VUnsup -> "unsup"
+
+let parse_cellv (t : string) : cellv =
+  if t = "_" then CBlank else match t.[0] with
+    | 'n' -> CNum (float_of_hexbits (String.sub t 1 16))
+    | 't' -> CText (bytes_of_hex ("x" ^ String.sub t 1 (String.length t - 1)))
+    | 'b' -> CBool (t = "b1")
+    | _ -> failwith ("bad cell " ^ t)
+
+let () =
+  reg "c08.eval" (fun a -> show_res show_val (eval_impl (List.map parse_c08_tok a)));
+  reg "c08.agg" (fun a -> match a with
+    | fn :: cells ->
+      let cs = List.map parse_cellv cells in
+      (match fn with
+       | "SUM" -> hexbits_of_float (agg_sum cs)
+       | "PRODUCT" -> hexbits_of_float (agg_product cs)
+       | "MIN" -> hexbits_of_float (agg_min cs)
+       | "MAX" -> hexbits_of_float (agg_max cs)
+       | "COUNT" -> string_of_z (agg_count cs)
+       | "COUNTA" -> string_of_z (agg_counta cs)
+       | _ -> "bad-fn")
+    | _ -> "bad-args")
+
 let () =
   reg "c17.run" (fun a ->
       let (ids, r) = run_styles (List.map z_of_string a) init_reg in
